@@ -161,38 +161,40 @@ def r1_partitions(ctx, P, R="C16.R1"):
                 ok = len(amt.terms) == 2 and sorted(amt.terms.values()) == [-1, 1]
                 ctx.inst(R, b.path, ok, f"{arm}: {rt[1]} by {amt!r} (= end - start)", where=b.where(), site=f"{arm} rotate amount")
     # ---- FixedBumpVec::split_off
-    its = [i for i in P.facts["items"] if i["name"] == "split_off" and i["path"].startswith("fixed_bump_vec::FixedBumpVec::<'a, T>::")]
-    if ctx.need(len(its) == 1, R, "FixedBumpVec::split_off"):
-        b = P.body(its[0]["id"])
-        try:
-            e = S.ret(its[0]["id"], want="eff")
-            for conds, leaf in ite_leaves(e):
-                if leaf[0] != "ret":
-                    continue
-                n_arms += 1
-                arm = arm_name(conds)
-                rv, effs = leaf[1], leaf[2]
-                fx = {x[1]: x[2] for x in effs if x[0] == "callfx"}
-                rs = slices_in(rv)
-                if not fx and not rs:
-                    ok = expr_mentions(rv, lambda x: x[0] == "const_item" and "EMPTY" in x[1]) or rv[0] == "call"
-                    ctx.inst(R, b.path, ok, f"{arm}: returns an empty vector and leaves self unchanged", where=b.where(), site=f"{arm} empty")
-                    continue
-                if "set_len" in fx and "set_ptr" not in fx:
-                    zl = [x for x in walk_expr(rv) if x[0] == "call" and x[1].split("::")[-1] == "zst_slice_from_len"]
-                    capv = rv[4][rv[3].index("capacity")] if rv[0] == "agg" and "capacity" in rv[3] else None
-                    ok = len(zl) == 1 and (aff(zl[0][2][0]) + aff(fx["set_len"][1])) == LEN and capv is not None and \
-                        (capv[0] == "const_item" and capv[1].endswith("MAX") or (capv[0] == "int" and capv[1] == 2**64 - 1))
-                    ctx.inst(R, b.path, ok, f"{arm}: zero-sized: lengths add up and capacity is usize::MAX ({show(capv) if capv else '?'})", where=b.where(), site=f"{arm} zst")
-                    continue
-                if len(rs) == 1 and {"set_ptr", "set_len", "set_cap"} <= set(fx):
-                    capv = rv[4][rv[3].index("capacity")]
-                    check_partition(ctx, R, b.path, b.where(), arm, (rs[0][2][0], rs[0][2][1], capv),
-                                    (fx["set_ptr"][1], fx["set_len"][1], fx["set_cap"][1]), LEN, caps=CAP)
-                else:
-                    ctx.inst(R, b.path, False, f"{arm}: could not identify the two parts", where=b.where(), site=f"{arm} shape")
-        except Unanalysable as ex:
-            ctx.inst(R, b.path, False, f"not analysable: {ex}", where=b.where(), site="avn")
+    for fixed_prefix, fixed_label in (("fixed_bump_vec::FixedBumpVec::<'a, T>::", "FixedBumpVec::split_off"),
+                                      ("fixed_bump_string::FixedBumpString::<'a>::", "FixedBumpString::split_off")):
+      its = [i for i in P.facts["items"] if i["name"] == "split_off" and i["path"].startswith(fixed_prefix)]
+      if ctx.need(len(its) == 1, R, fixed_label):
+          b = P.body(its[0]["id"])
+          try:
+              e = S.ret(its[0]["id"], want="eff")
+              for conds, leaf in ite_leaves(e):
+                  if leaf[0] != "ret":
+                      continue
+                  n_arms += 1
+                  arm = arm_name(conds)
+                  rv, effs = leaf[1], leaf[2]
+                  fx = {x[1]: x[2] for x in effs if x[0] == "callfx"}
+                  rs = slices_in(rv)
+                  if not fx and not rs:
+                      ok = expr_mentions(rv, lambda x: x[0] == "const_item" and "EMPTY" in x[1]) or rv[0] == "call"
+                      ctx.inst(R, b.path, ok, f"{arm}: returns an empty vector and leaves self unchanged", where=b.where(), site=f"{arm} empty")
+                      continue
+                  if "set_len" in fx and "set_ptr" not in fx:
+                      zl = [x for x in walk_expr(rv) if x[0] == "call" and x[1].split("::")[-1] == "zst_slice_from_len"]
+                      capv = rv[4][rv[3].index("capacity")] if rv[0] == "agg" and "capacity" in rv[3] else None
+                      ok = len(zl) == 1 and (aff(zl[0][2][0]) + aff(fx["set_len"][1])) == LEN and capv is not None and \
+                          (capv[0] == "const_item" and capv[1].endswith("MAX") or (capv[0] == "int" and capv[1] == 2**64 - 1))
+                      ctx.inst(R, b.path, ok, f"{arm}: zero-sized: lengths add up and capacity is usize::MAX ({show(capv) if capv else '?'})", where=b.where(), site=f"{arm} zst")
+                      continue
+                  if len(rs) == 1 and {"set_ptr", "set_len", "set_cap"} <= set(fx):
+                      capv = rv[4][rv[3].index("capacity")]
+                      check_partition(ctx, R, b.path, b.where(), arm, (rs[0][2][0], rs[0][2][1], capv),
+                                      (fx["set_ptr"][1], fx["set_len"][1], fx["set_cap"][1]), LEN, caps=CAP)
+                  else:
+                      ctx.inst(R, b.path, False, f"{arm}: could not identify the two parts", where=b.where(), site=f"{arm} shape")
+          except Unanalysable as ex:
+              ctx.inst(R, b.path, False, f"not analysable: {ex}", where=b.where(), site="avn")
     ctx.floor(R, "return paths of split_off variants analysed", n_arms, 15)
     # ---- split_at_unchecked / split_first / split_last / split_at_spare
     S2 = Sym(P, inline_depth=2, opaque_names=OPAQUE)
@@ -487,4 +489,7 @@ def run(ctx, progs):
         from . import c08, c01
         c08.r6_zst_sibling_agreement(ctx, P, R="C16.R6")
         c01.r3b_is_last_exact(ctx, P, R="C16.R7")
+        from . import c13
+        from .poswrite import PosDiscipline
+        c13.r3_reclaim_boundary(ctx, P, PosDiscipline(P), R="C16.R8")
     ctx.config = None
